@@ -129,6 +129,23 @@ def run(ctx, spec):
                         {'ns': ns, 'check': name})
           continue
         _judge(ctx, name, origin, keys, arts)
+      # the same protos judged again with stronger parameters / in a larger
+      # batch: an entry that turns positive must carry the weak flag with it
+      keys = workloads.rsa_keys(arts)
+      state['check'] = 'escalation'
+      state['keys'] = {id(k.test_info): n for k, n in zip(keys, ns)}
+      try:
+        for name, chk in hostile.items():
+          chk.Check(keys)
+        for k in keys:
+          singles['CheckGCD'].Check([k])
+        for name in list(hostile) + ['CheckGCD']:
+          singles[name].Check(keys)
+        ctx.count('escalation_passes')
+        _judge(ctx, 'escalation', 'same-protos', keys, arts)
+      except Exception as e:  # pylint: disable=broad-except
+        ctx.violation('check-raised-%s@escalation' % type(e).__name__,
+                      repr(e), {'ns': ns})
       # and once through the entry point (all checks accumulate on one key)
       keys = workloads.rsa_keys(arts)
       state['check'] = 'CheckAllRSA'
@@ -179,7 +196,8 @@ def _judge(ctx, name, origin, keys, arts):
     if not snap['weak']:
       ctx.violation('factors-without-weak-flag@%s' % name,
                     'factor record present but key not marked weak', data)
-    if name != 'CheckAllRSA' and not ents.get(name, (False,))[0]:
+    if name not in ('CheckAllRSA', 'escalation') and not ents.get(
+        name, (False,))[0]:
       ctx.violation('factors-without-positive-entry@%s' % name,
                     'factor record present but the check\'s entry is not true',
                     data)
@@ -195,7 +213,8 @@ def _judge(ctx, name, origin, keys, arts):
 
 def finalize(agg, tier):
   c = agg['counters']
-  need = ['contract:AttachFactors', 'factor_records', 'trivial_factor_records']
+  need = ['contract:AttachFactors', 'factor_records', 'trivial_factor_records',
+          'escalation_passes']
   need += ['contract:' + fn for _, fn in HELPERS]
   need += ['attached_by:' + k for k in (
       'CheckFermat', 'CheckHighAndLowBitsEqual', 'CheckContinuedFractions',
